@@ -50,6 +50,10 @@ fn setups() -> Vec<(&'static str, Option<Vec<usize>>)> {
         ("no-projection", None),
         ("project(2,2)", Some(vec![2, 2])),
         ("project(4,1)", Some(vec![4, 1])),
+        // targets of zero chromosomes are legal (shape entry 1) and leave scratch indices at 0
+        ("project(0,2)", Some(vec![0, 2])),
+        ("project(3,0)", Some(vec![3, 0])),
+        ("project(0,0)", Some(vec![0, 0])),
     ]
 }
 
@@ -151,7 +155,7 @@ struct Search {
 fn explore(setup: &str, project: &Option<Vec<usize>>, depth_cap: usize, state_cap: usize) -> Search {
     let nk = kinds().len();
     // what a fresh reader produces for each kind alone (differential oracle)
-    let fresh: Vec<Option<Obs>> = (0..nk).map(|k| execute(&[k], project).ok().map(|(o, _)| o[0].clone())).collect();
+    let fresh: Vec<Option<Obs>> = (0..nk).map(|k| execute(&[k], project).ok().and_then(|(o, _)| o.first().cloned())).collect();
     let mut seen: BTreeMap<String, Vec<usize>> = BTreeMap::new();
     let mut queue: VecDeque<Vec<usize>> = VecDeque::new();
     let mut s = Search { states: 0, transitions: 0, max_depth: 0, closed: true, viols: Vec::new() };
@@ -173,7 +177,8 @@ fn explore(setup: &str, project: &Option<Vec<usize>>, depth_cap: usize, state_ca
             h2.push(k);
             match execute(&h2, project) {
                 Ok((obs, key)) => {
-                    let last = obs.last().cloned().unwrap_or(Obs::Error("no observation".into()));
+                    // one observation per record: a reader that ends the stream early or passes over a record yields fewer
+                    let last = if obs.len() == h2.len() { obs.last().cloned().unwrap() } else { Obs::Error(format!("{} observations for {} records", obs.len(), h2.len())) };
                     let fresh_ok = fresh[k].as_ref().map_or(false, |f| obs_same(f, &last));
                     let ref_ok = obs_matches_reference(&last, k, project);
                     if !fresh_ok || !ref_ok {
@@ -269,7 +274,7 @@ pub fn run(tier: Tier) -> i32 {
     let mut rep = Report::new("C11", tier, "model_checking");
     let ks = kinds();
     rep.rule = format!(
-        "explicit-state search: 2 populations x 2 samples, set-ups {{no projection, project to (2,2), project to (4,1)}}, alphabet of {} site kinds (complete patterns, partially missing in each/both populations, exactly sufficient, insufficient, multiallelic, all missing, and three kinds with equal allele counts but different called totals). State = hook snapshot (counts, totals, #skipped samples, projection scratch buffer) after a record was read and consumed; BFS until no new state appears; on every transition the Site produced must equal (bitwise) the one a fresh reader produces for that kind and the reference. Bounded histories: every sequence up to length {} accumulates to the sum of single-site contributions (hence every permutation agrees). L2: all permutations and split points of a 6-record VCF. Non-trivial = a transition from a non-initial state.",
+        "explicit-state search: 2 populations x 2 samples, set-ups {{no projection, project to (2,2), (4,1), (0,2), (3,0), (0,0) chromosomes}}, alphabet of {} site kinds (complete patterns, partially missing in each/both populations, exactly sufficient, insufficient, multiallelic, all missing, and three kinds with equal allele counts but different called totals). State = hook snapshot (counts, totals, #skipped samples, projection scratch buffer) after a record was read and consumed; BFS until no new state appears; on every transition the Site produced must equal (bitwise) the one a fresh reader produces for that kind and the reference. Bounded histories: every sequence up to length {} accumulates to the sum of single-site contributions (hence every permutation agrees). L2: all permutations and split points of a 6-record VCF. Non-trivial = a transition from a non-initial state.",
         ks.len(),
         tier.pick(3, 4)
     );
@@ -321,7 +326,7 @@ pub fn run(tier: Tier) -> i32 {
         name: "lib: all bounded histories".into(),
         evaluations: jobs.len() as u64,
         nontrivial: jobs.iter().filter(|j| seqs[j.1].len() >= 2).count() as u64,
-        note: format!("every sequence of length 0..{len} over {} kinds x 3 set-ups = sum of single-site contributions", ks.len()),
+        note: format!("every sequence of length 0..{len} over {} kinds x {} set-ups = sum of single-site contributions", ks.len(), sts.len()),
         exhaustive: true,
         extra: vec![],
     });
@@ -410,7 +415,7 @@ pub fn replay(case: &J) -> Option<Vec<String>> {
                 out.push(format!("{} :: {}", v.0, v.1));
             }
             if let (Some(&k), Ok((obs, _))) = (hist.last(), execute(&hist, &project)) {
-                let fresh = execute(&[k], &project).ok().map(|(o, _)| o[0].clone());
+                let fresh = execute(&[k], &project).ok().and_then(|(o, _)| o.first().cloned());
                 let last = obs.last().cloned();
                 if let (Some(f), Some(l)) = (fresh, last) {
                     if !obs_same(&f, &l) || !obs_matches_reference(&l, k, &project) {
